@@ -429,13 +429,21 @@ def eval_cases(cases):
         wire.append([10, [g, rt, [enc.cfg(s, pats) for s in specs]]])
         encs.append(enc)
     mres = common.model_run(wire)
+    # the same evaluations with the graph queries run by the transcribed worklist loops (fn 34, Model/WRule.v): must give the
+    # outcome of the comprehension model (C01_loops_verdict proves it; this is the executable side of that theorem)
+    wres = common.model_run([[34, w[1]] for w in wire])
     result = []
-    for c, enc, outs, w, m in zip(cases, encs, impl_out, wire, mres):
-        if m is None or m == SX_ERR:
+    for c, enc, outs, w, m, mw in zip(cases, encs, impl_out, wire, mres, wres):
+        if m is None or m == SX_ERR or mw is None or mw == SX_ERR:
             raise RuntimeError("model rejected case: " + common.sx_dump(w)[:300])
         rec = []
-        for io, mo in zip(outs, m):
-            rec.append((io, enc.dec_outcome(mo[1])))
+        for io, mo, mwo in zip(outs, m, mw):
+            d10 = enc.dec_outcome(mo[1])
+            if mwo[1] == [9]:
+                d10 = ("ERR", "model: worklist loop ran out of fuel")
+            elif enc.dec_outcome(mwo[1]) != d10:
+                d10 = ("ERR", "model: worklist evaluation %r differs from comprehension evaluation %r" % (enc.dec_outcome(mwo[1])[0], d10[0]))
+            rec.append((io, d10))
         result.append((rec, w, m))
     return result
 
